@@ -568,6 +568,10 @@ func polygonCase(c *mon.Case) {
 	}
 	var rings []ring
 	groups := 1 + r.Intn(3)
+	touch := c.I%4 == 1 // one shell of at least 10 vertices that gets a hole touching it at a vertex
+	if touch {
+		groups = 1
+	}
 	centers := []s2.Point{}
 	for g := 0; g < groups; g++ {
 		ctr := gen.RandCenter(r)
@@ -584,6 +588,12 @@ func polygonCase(c *mon.Case) {
 		rad := gen.LogUniform(r, 1e-6, 0.4)
 		for d := 0; d < 1+r.Intn(4); d++ {
 			nv := 3 + r.Intn(30)
+			if touch {
+				if d > 0 {
+					break
+				}
+				nv = 10 + r.Intn(25)
+			}
 			sp := gen.StarLoop(r, ctr, nv, rad*0.75, rad)
 			rings = append(rings, ring{sp.Vs, d})
 			rad = sp.RMin * 0.7
@@ -593,6 +603,84 @@ func polygonCase(c *mon.Case) {
 		}
 	}
 	oriented := r.Intn(2) == 0
+	// (a) a triangular hole that touches its shell at one shared vertex (the shell's vertex 0 in half of the
+	// cases), for single-ring groups; validated exactly: inside the shell, no edge crossing
+	if len(rings) == 1 && len(rings[0].vs) >= 4 && (touch || r.Intn(2) == 0) {
+		sh := rings[0].vs
+		k := 0
+		if r.Intn(2) == 0 {
+			k = r.Intn(len(sh))
+		}
+		ctr := centers[0]
+		d := sh[k].Distance(ctr).Radians()
+		p1, p2 := gen.Near(r, ctr, 0.04*d), gen.Near(r, ctr, 0.04*d)
+		tri := []s2.Point{sh[k], p1, p2}
+		if orient(gen.V(tri[0]), gen.V(tri[1]), gen.V(tri[2])) < 0 {
+			tri[1], tri[2] = tri[2], tri[1]
+		}
+		ok := orient(gen.V(tri[0]), gen.V(tri[1]), gen.V(tri[2])) > 0
+		model := ref.NewLoopModel(gen.Vs(sh), gen.V(s2.OriginPoint()), gen.RefDir)
+		ok = ok && model.Contains(gen.V(p1)) && model.Contains(gen.V(p2))
+		for i := 0; ok && i < len(sh); i++ {
+			a, b := sh[i], sh[(i+1)%len(sh)]
+			for j := 0; j < 3; j++ {
+				x, y := tri[j], tri[(j+1)%3]
+				if a == x || a == y || b == x || b == y {
+					continue
+				}
+				if ref.CrossingSign(gen.V(a), gen.V(b), gen.V(x), gen.V(y)) != ref.DoNotCross {
+					ok = false
+				}
+			}
+		}
+		if ok {
+			rot := r.Intn(3) // the shared vertex is vertex (3-rot)%3 of the hole
+			tri = append(tri[rot:], tri[:rot]...)
+			rings = append(rings, ring{tri, 1})
+			c.Count("polygons.hole_touching_shell_at_a_vertex", 1)
+		}
+	}
+	// (b) a thin band between two nearly great circles (turning angle of both loops about zero)
+	if c.I%4 == 0 {
+		ax := gen.Uniform(r)
+		if r.Intn(2) == 0 {
+			ax = gen.Special(r)
+		}
+		x, y, z := gen.Frame(ax)
+		n := 4 + r.Intn(12)
+		lat1 := []float64{0, 0, gen.LogUniform(r, 1e-16, 1e-14), gen.LogUniform(r, 1e-15, 1e-3), -gen.LogUniform(r, 1e-15, 1e-3)}[r.Intn(5)]
+		lat2 := lat1 - gen.LogUniform(r, 1e-15, 1e-3)
+		if r.Intn(2) == 0 {
+			lat2 = lat1 - gen.LogUniform(r, 1e-15, 1e-13) // both turning angles within the error of zero
+		}
+		mk := func(lat float64) []s2.Point {
+			vs := make([]s2.Point, n)
+			for i := range vs {
+				ph := 2 * math.Pi * float64(i) / float64(n)
+				vs[i] = s2.Point{Vector: x.Mul(math.Cos(lat) * math.Cos(ph)).Add(y.Mul(math.Cos(lat) * math.Sin(ph))).Add(z.Mul(math.Sin(lat))).Normalize()}
+			}
+			return vs
+		}
+		shell, hole := mk(lat2), mk(lat1)
+		// exact validation: the hole lies strictly inside the shell and no edges meet
+		ok := refSimple(shell) && refSimple(hole)
+		if ok {
+			model := ref.NewLoopModel(gen.Vs(shell), gen.V(s2.OriginPoint()), gen.RefDir)
+			for i := 0; ok && i < n; i++ {
+				ok = model.Contains(gen.V(hole[i]))
+				for j := 0; ok && j < n; j++ {
+					if ref.CrossingSign(gen.V(shell[i]), gen.V(shell[(i+1)%n]), gen.V(hole[j]), gen.V(hole[(j+1)%n])) != ref.DoNotCross {
+						ok = false
+					}
+				}
+			}
+		}
+		if ok {
+			rings = []ring{{shell, 0}, {hole, 1}}
+			oriented = c.I%8 == 0
+			c.Count("polygons.band_between_near_great_circles", 1)
+		}
+	}
 	var loops []*s2.Loop
 	wantA := new(big.Float).SetPrec(ref.Prec)
 	wantC := ref.H{ref.F(0), ref.F(0), ref.F(0)}
